@@ -151,6 +151,29 @@ Proof.
 Qed.
 Lemma sc_rune_plain c rest : c <> 39 -> c <> 10 -> c <> 92 -> scannable rest -> scannable ((TRune, [39; c; 39]) :: rest).
 Proof. intros A B C S. constructor; auto; simpl; apply first_rune_plain; auto. Qed.
+Lemma sc_rune_escape e rest : is_simple_esc e = true -> scannable rest -> scannable ((TRune, [39; 92; e; 39]) :: rest).
+Proof. intros H S. constructor; auto; simpl; apply first_rune_simple_escape; auto. Qed.
+Lemma sc_rune_x hs rest : hexes 2 hs -> scannable rest -> scannable ((TRune, 39 :: 92 :: 120 :: hs ++ [39]) :: rest).
+Proof.
+  intros H S. constructor; auto.
+  replace ((39 :: 92 :: 120 :: hs ++ [39]) ++ render_toks rest) with (39 :: 92 :: 120 :: hs ++ 39 :: render_toks rest)
+    by (simpl; rewrite <- app_assoc; reflexivity).
+  rewrite (first_rune_x hs _ H). destruct H as (L & _). f_equal. f_equal. simpl. rewrite app_length, L. reflexivity.
+Qed.
+Lemma sc_rune_u hs rest : hexes 4 hs -> scannable rest -> scannable ((TRune, 39 :: 92 :: 117 :: hs ++ [39]) :: rest).
+Proof.
+  intros H S. constructor; auto.
+  replace ((39 :: 92 :: 117 :: hs ++ [39]) ++ render_toks rest) with (39 :: 92 :: 117 :: hs ++ 39 :: render_toks rest)
+    by (simpl; rewrite <- app_assoc; reflexivity).
+  rewrite (first_rune_u hs _ H). destruct H as (L & _). f_equal. f_equal. simpl. rewrite app_length, L. reflexivity.
+Qed.
+Lemma sc_rune_U hs rest : hexes 8 hs -> scannable rest -> scannable ((TRune, 39 :: 92 :: 85 :: hs ++ [39]) :: rest).
+Proof.
+  intros H S. constructor; auto.
+  replace ((39 :: 92 :: 85 :: hs ++ [39]) ++ render_toks rest) with (39 :: 92 :: 85 :: hs ++ 39 :: render_toks rest)
+    by (simpl; rewrite <- app_assoc; reflexivity).
+  rewrite (first_rune_U hs _ H). destruct H as (L & _). f_equal. f_equal. simpl. rewrite app_length, L. reflexivity.
+Qed.
 Lemma sc_string ps rest : forallb piece_good ps = true -> scannable rest ->
   scannable ((TString, 34 :: flat3 ps ++ [34]) :: rest).
 Proof.
